@@ -112,10 +112,26 @@ def clone(n):
 
 
 def render(docs, c):
-    """-> document text for case c"""
-    enc, op = c["enc"], c["op"]
+    """-> document text for case c (one mutation, or two in the thorough tier)"""
+    enc = c["enc"]
     root = clone(build(docs[c["doc"]]))
-    node, parent = find(root, c["at"])
+    posts = [apply_op(root, enc, c["at"], c["op"])]
+    if c.get("op2", "none") != "none":
+        posts.append(apply_op(root, enc, c["at2"], c["op2"]))
+    text = xml_node(root) if enc == "xml" else json_node(root)
+    for post in posts:
+        if post:
+            text = post(text)
+    return text
+
+
+def apply_op(root, enc, at, op):
+    """applies one mutation to the tree; returns a function to apply to the serialised text (or None)"""
+    c = {"at": at}
+    found = find(root, at)
+    if not found:
+        return None
+    node, parent = found
     leaf = node["t"] != "Structure"
     own_tag = tc.TAG_NUM.get(node["n"], 0x42FFFF)
     post = None      # function applied to the serialised text
@@ -379,10 +395,7 @@ def render(docs, c):
         post = lambda s: s    # encoded below
     else:
         raise ValueError("unknown op " + op)
-    text = xml_node(root) if enc == "xml" else json_node(root)
-    if post:
-        text = post(text)
-    return text
+    return post
 
 
 def base_text(docs, name, enc):
@@ -390,11 +403,12 @@ def base_text(docs, name, enc):
     return xml_node(root) if enc == "xml" else json_node(root)
 
 
-def replay(ctx, want_keeps=None):
+def replay(ctx, want_keeps=None, deep_ok=True):
     """runs TLC on TextShapes.tla, renders the cases, replays them; returns (cases, results, bases) where bases[(doc,enc)] is the
     result of the unmutated document"""
-    r = ctx.tlc("TextShapes", "TextShapes_mc.cfg", workers=4)
-    g = ctx.tlc("TextShapes", "TextShapes_gen.cfg", workers=1, count=False)
+    deep = "_deep" if (not ctx.quick and deep_ok) else ""       # thorough: every case also with a second mutation at the last node
+    r = ctx.tlc("TextShapes", "TextShapes_mc%s.cfg" % deep, workers=4)
+    g = ctx.tlc("TextShapes", "TextShapes_gen%s.cfg" % deep, workers=1, count=False)
     cases = g.printed("CASE")
     if len(cases) < 6000:
         raise vlib.Inconclusive("too few shape cases: %d" % len(cases))
